@@ -103,3 +103,57 @@ Proof.
   destruct (eos_exactly_once N C HN _ _ Hr Hc) as [He Hp].
   repeat split; auto. apply ancestors_parent_first. eapply reach_parent_first; eauto.
 Qed.
+
+(* ---- no descent, read with unique sibling names: whatever lies at an ancestor path of a job or of
+   a result is a real directory that the filters keep (so it is neither excluded nor a link) ---- *)
+Inductive down : tree -> path -> tree -> Prop :=
+| down_nil t : down t [] t
+| down_cons ch n sub p t : In (n, (false, sub)) ch -> is_dir sub = true -> down sub p t -> down (Dir true ch) (n :: p) t.
+
+Lemma down_snoc root p ch n sub : down root p (Dir true ch) -> In (n, (false, sub)) ch -> is_dir sub = true ->
+  down root (p ++ [n]) sub.
+Proof.
+  intros Hd Hin Hs. remember (Dir true ch) as t eqn:Et. induction Hd as [t|ch0 m sub0 p t Hin0 Hs0 Hd IH]; subst.
+  - cbn [app]. eapply down_cons; eauto. apply down_nil.
+  - cbn [app]. eapply down_cons; eauto.
+Qed.
+
+Lemma dir_at_down root p t : dir_at root p t -> down root p t.
+Proof. induction 1; [apply down_nil|eapply down_snoc; eauto]. Qed.
+
+Lemma nodup_fst_unique {A B} (l : list (A * B)) n a b :
+  NoDup (map fst l) -> In (n, a) l -> In (n, b) l -> a = b.
+Proof.
+  induction l as [|[m c] l IH]; cbn [map fst In]; intros Hnd Ha Hb; [tauto|].
+  inversion Hnd as [|? ? Hnot Hnd']; subst.
+  destruct Ha as [Ha|Ha], Hb as [Hb|Hb].
+  - congruence.
+  - injection Ha as -> ->. exfalso. apply Hnot. apply in_map_iff. exists (n, b). auto.
+  - injection Hb as -> ->. exfalso. apply Hnot. apply in_map_iff. exists (n, a). auto.
+  - eapply IH; eauto.
+Qed.
+
+Lemma down_ancestor_unique root p t : down root p t -> unique_names root ->
+  forall q r c, p = q ++ r -> q <> [] -> at_path root q c ->
+  fst c = false /\ is_dir (snd c) = true /\ down root q (snd c) /\ down (snd c) r t.
+Proof.
+  induction 1 as [t|ch n sub p t Hin Hs Hd IH]; intros Hun q r c E Hq Hat.
+  - destruct q; [contradiction|discriminate].
+  - destruct q as [|m q]; [contradiction|]. cbn [app] in E. injection E as <- E.
+    inversion Hun as [|r0 ch0 Hnd Hall]; subst.
+    inversion Hat as [r1 ch1 n1 c1 Hin1|r1 ch1 n1 c1 p1 c1' Hin1 Hp1 Hat1]; subst.
+    + pose proof (nodup_fst_unique _ _ _ _ Hnd Hin Hin1) as <-. cbn [fst snd app] in *.
+      repeat split; auto. eapply down_cons; eauto. apply down_nil.
+    + pose proof (nodup_fst_unique _ _ _ _ Hnd Hin Hin1) as <-. cbn [snd] in Hat1.
+      rewrite Forall_forall in Hall. specialize (Hall _ Hin). cbn [snd] in Hall.
+      destruct (IH Hall q r c eq_refl Hp1 Hat1) as (F & D & Dq & Dr).
+      repeat split; auto. eapply down_cons; eauto.
+Qed.
+
+(* For a job or a result at path p: the thing at every non-empty prefix q of p is a kept real directory. *)
+Lemma no_descent_unique root p t : unique_names root -> dir_at root p t ->
+  forall q r c, p = q ++ r -> q <> [] -> at_path root q c -> fst c = false /\ is_dir (snd c) = true.
+Proof.
+  intros Hun Hd q r c E Hq Hat.
+  destruct (down_ancestor_unique _ _ _ (dir_at_down _ _ _ Hd) Hun q r c E Hq Hat) as (F & D & _). auto.
+Qed.
